@@ -6,7 +6,9 @@ pub mod c04;
 pub mod c05;
 pub mod c06;
 pub mod c07;
+pub mod c08;
 pub mod c12;
+pub mod c13;
 pub mod c14;
 pub mod c15;
 pub mod c16;
@@ -26,7 +28,9 @@ pub fn lookup(id: &str) -> Option<(&'static str, fn(&Engine))> {
         "C05" => ("C05", c05::run),
         "C06" => ("C06", c06::run),
         "C07" => ("C07", c07::run),
+        "C08" => ("C08", c08::run),
         "C12" => ("C12", c12::run),
+        "C13" => ("C13", c13::run),
         "C14" => ("C14", c14::run),
         "C15" => ("C15", c15::run),
         "C16" => ("C16", c16::run),
